@@ -452,6 +452,10 @@ class DepGraph:
         if isinstance(e, ast.IfExp):
             self._uses(le, e.test, snap, out)  # which arm was evaluated is not recorded
             return
+        if isinstance(e, ast.Compare) and len(e.ops) > 1:
+            self._uses(le, e.left, snap, out)  # a chained comparison stops at the first false link
+            self._uses(le, e.comparators[0], snap, out)
+            return
         if isinstance(e, ast.Dict):
             for v in e.values:
                 self._uses(le, v, snap, out)
@@ -652,6 +656,10 @@ class DepGraph:
                 self._uses(le, stmt.value, snap, deps)
                 d = node("D", deps)
                 d.elts = self._elts(le, stmt.value, snap)
+                if d.elts is None and isinstance(stmt.value, ast.Call) and self.static.call_kind(stmt.value) in ("function", "method"):
+                    r = self.frame_ret.get(le.children[le.calls.index(stmt.value)])
+                    if r is not None and r.elts is not None:
+                        d.elts = {i: list(v) + [r.deps[-1]] for i, v in r.elts.items()}
                 le.defs["name", t.id] = d
                 new.append((self._key(fr, t.id), d))
             elif isinstance(t, ast.Tuple):
@@ -666,10 +674,12 @@ class DepGraph:
                     src = self.lastdef.get(self._key(fr, stmt.value.id))
                     if src is not None and src.elts is not None and sorted(src.elts) == list(range(len(t.elts))):
                         per = [[src] + list(src.elts[i]) for i in range(len(t.elts))]
+                elif isinstance(stmt.value, ast.Call) and self.static.call_kind(stmt.value) in ("function", "method"):
+                    r = self.frame_ret.get(le.children[le.calls.index(stmt.value)])
+                    if r is not None and r.elts is not None and sorted(r.elts) == list(range(len(t.elts))):
+                        per = [list(r.elts[i]) + [r.deps[-1]] for i in range(len(t.elts))]
                 if per is None:
-                    deps = []
-                    self._uses(le, stmt.value, snap, deps)
-                    per = [list(deps) for _ in t.elts]
+                    per = [[] for _ in t.elts]  # which element depends on what is not known: claim nothing
                 for e, deps in zip(t.elts, per):
                     d = node("D", deps)
                     le.defs["name", e.id] = d
@@ -708,6 +718,7 @@ class DepGraph:
             deps = []
             self._uses(le, stmt.value, snap, deps)
             le.r = node("R", deps)
+            le.r.elts = self._elts(le, stmt.value, snap)
         elif isinstance(stmt, (ast.FunctionDef, ast.ClassDef)):
             d = node("D", [])
             le.defs["name", stmt.name] = d
